@@ -39,8 +39,11 @@ TraceMinusF(a) == <<Hdr.mf[a[1] + 1], a[2], a[3]>>
 VARIABLES l, st,
           win,      \* key -> None | [ts, del]: the greatest-stamp operation this actor has handled for the key
           refused,  \* some request carried a stamp older than the safe cut-off of its origin (outside C04's premise)
+          gone,     \* key -> None | the greatest stamp of a delete this actor's set has held for the key
+          top,      \* None | the greatest stamp this actor has been handed so far
+          late,     \* some request was older than `top` by the forgiveness period or more (outside C08's premise)
           fails, drift
-vars == <<l, st, win, refused, fails, drift>>
+vars == <<l, st, win, refused, gone, top, late, fails, drift>>
 
 StOf(p) == [ent  |-> [k \in Keys |-> p.ent[k]],
             dead |-> [k \in Keys |-> p.dead[k]],
@@ -59,6 +62,19 @@ Fold(w, items, isDel) ==
            better == w[k] = None \/ Lt(w[k].ts, ts)
        IN Fold(IF better THEN [w EXCEPT ![k] = [ts |-> ts, del |-> isDel]] ELSE w, Tail(items), isDel)
 LiveOfWin(w) == [k \in Keys |-> IF w[k] = None THEN None ELSE IF w[k].del THEN None ELSE w[k].ts]
+
+\* C08, deletes stay deleted: while every request reaches this actor less than the forgiveness period after the newest
+\* stamp it has seen (from anybody), no document is live at a stamp older than a delete the set has held for it -
+\* whatever was purged in between, and however a failed purge was put back.
+OptMax(a, b) == IF a = None THEN b ELSE IF b = None THEN a ELSE IF Lt(a, b) THEN b ELSE a
+RECURSIVE TopOf(_, _)
+TopOf(t, items) == IF items = <<>> THEN t ELSE TopOf(OptMax(t, items[1][2]), Tail(items))
+RECURSIVE MaxOfSet(_)
+MaxOfSet(S) == IF S = {} THEN None ELSE LET x == CHOOSE x \in S : TRUE IN OptMax(x, MaxOfSet(S \ {x}))
+TopOfState(s) == MaxOfSet({ s.mx[src][n] : src \in Sources, n \in Nodes } \ {None})
+TooLate(t, items) == t # None /\ \E i \in 1..Len(items) : ~Lt(TraceMinusF(t), items[i][2])
+GoneAfter(g, post) == [k \in Keys |-> OptMax(g[k], post.dead[k])]
+Resurrected(g, post) == \E k \in Keys : post.ent[k] # None /\ g[k] # None /\ Lt(post.ent[k], g[k])
 
 KeysOf(items) == { items[i][1] : i \in 1..Len(items) }
 PairSet(items) == { <<items[i][1], items[i][2]>> : i \in 1..Len(items) }
@@ -99,7 +115,7 @@ DiffStep(e) ==
       drifts == (IF got # Diff(st, other) THEN {"diff differs from the faithful layer"} ELSE {})
                 \cup (IF StOf(e.post) # st THEN {"the set changed without a logged mutation"} ELSE {})
   IN /\ st' = StOf(e.post)
-     /\ UNCHANGED <<win, refused>>
+     /\ UNCHANGED <<win, refused, gone, top, late>>
      /\ fails' = IF props = {} THEN fails ELSE Append(fails, <<l, props>>)
      /\ drift' = IF drifts = {} THEN drift ELSE Append(drift, <<l, drifts>>)
 
@@ -109,6 +125,8 @@ Step(e) ==
   THEN /\ st' = StOf(e.post)
        /\ win' = WinOfState(StOf(e.post))
        /\ refused' = FALSE
+       /\ gone' = [k \in Keys |-> StOf(e.post).dead[k]]
+       /\ top' = TopOfState(StOf(e.post)) /\ late' = FALSE
        /\ drift' = IF WellFormed(StOf(e.post)) THEN drift ELSE Append(drift, <<l, {"a key is both live and deleted"}>>)
        /\ UNCHANGED fails
   ELSE LET x == Expect(e)
@@ -116,18 +134,25 @@ Step(e) ==
            isDel == e.kind \in {"del", "mdel"}
            w2 == Fold(win, x[2], isDel)
            ref2 == refused \/ (e.kind # "purge" /\ AnyRefused(st, e.req))
+           late2 == late \/ (e.kind # "purge" /\ TooLate(top, e.req))
            props == x[3]
+                    \cup (IF ~late2 /\ Resurrected(gone, post)
+                          THEN {"C08: a deleted document is live again at a stamp older than its delete"} ELSE {})
                     \cup (IF ~ref2 /\ post.ent # LiveOfWin(w2) THEN {"C04: the live view is not the greatest-stamp operation per key"} ELSE {})
            drifts == x[4] \cup (IF post # x[1] THEN {"the set differs from the faithful layer"} ELSE {})
                           \cup (IF WellFormed(post) THEN {} ELSE {"a key is both live and deleted"})
        IN /\ st' = post
           /\ win' = w2
           /\ refused' = ref2
+          /\ late' = late2
+          /\ top' = IF e.kind = "purge" THEN top ELSE TopOf(top, e.req)
+          /\ gone' = GoneAfter(gone, post)
           /\ fails' = IF props = {} THEN fails ELSE Append(fails, <<l, props>>)
           /\ drift' = IF drifts = {} THEN drift ELSE Append(drift, <<l, drifts>>)
 
 Init == /\ l = 2 /\ fails = <<>> /\ drift = <<>> /\ refused = FALSE
         /\ st = EmptySet /\ win = NoWin
+        /\ gone = NoWin /\ top = None /\ late = FALSE
 Next == l <= Len(Rec) /\ l' = l + 1 /\ Step(Rec[l])
 Spec == Init /\ [][Next]_vars
 
